@@ -7,6 +7,36 @@ CORE = "frost_core::"
 DKG = CORE + "keys::dkg::"
 
 
+
+def senders_coincide(ctx, p3, what12, what21):
+    """part3: the senders of the round-one and round-two packages are the same set.  round-one ⊆ round-two is a per-element refusal
+    over the round-one map (its keys), in whatever form the traversal is written (`any(!contains)`, `!all(contains)`, a loop
+    with an early return, a flag, `find`, a helper); round-two ⊆ round-one follows from size equality, or is its own lookup
+    in the share loop.  Shared by C08 and C09."""
+    from ..lib import _forall
+    P = ctx.prog
+    v = FnView.get(P, p3)
+    src12 = lambda s: s == ("arg", 2) or (is_call(s, name="keys") and s[2] and s[2][0] == ("arg", 2))
+    key_of = lambda item: (lambda t: item(t) or tfield(item, 0)(t))
+    mech = [("round2.contains_key(id)", lambda item: cmp_fact("contains", arg(3), key_of(item), False)),
+            ("round2.get(id) is Some", lambda item: succ_fact(lambda t: is_call(t, name="get") and t[2][0] == ("arg", 3) and key_of(item)(t[2][1])))]
+    r, why = _forall(P, v, src12, mech, ok_sinks(p3), True, 0)
+    if r is not None:
+        ctx.ok("SEP", p3.key, what12, {"form": r["kind"], "in": r["fn"].key})
+    else:
+        ctx.violation("SEP", p3.key, what12, "not every round-one sender is required to have sent a round-two package: %s" % why, p3.loc)
+    vsize = cmp_fact("eq", length(arg(2)), length(arg(3)), False)
+    size_ok = not sep(p3, {e for (e, fa) in v.facts if vsize(fa) == "pass" and
+                           all(fail_is_error(p3, e2) for (e2, f2) in v.facts if e2[0] == e[0] and vsize(f2) == "fail")},
+                      ok_sinks(p3))
+    if size_ok and r is not None:
+        ctx.ok("SEP", p3.key, what21, {"mechanism": "size equality + " + what12})
+    else:
+        getok = lambda item: succ_fact(call("get", arg(2), tfield(item, 0)))
+        forall_loop(ctx, p3, "LOOPDOM", what21, lambda s: s == ("arg", 3), [("get(ell).ok_or", getok)], require_fail_err=False)
+    return r is not None
+
+
 def count_guard(ctx, f, what, mapp, secretp, rule="SEP"):
     w = Width()
     maxm1 = lambda t: t[0] == "bin" and t[1] == "Sub" and fld(secretp, "max_signers")(t[2]) and const(1)(t[3])
@@ -133,34 +163,8 @@ def run(ctx):
         count_guard(ctx, p3, "G23:package-count", arg(2), arg(1))
         own_id_guard(ctx, p3, "G24:own-identifier-in-round1", arg(2), arg(1))
         own_id_guard(ctx, p3, "G25:own-identifier-in-round2", arg(3), arg(1))
-        # G27 round-one senders ⊆ round-two senders
-        anyf = lambda fa: (None if not (fa[0] == "cond" and fa[1] == "any" and is_call(fa[2], name="keys")
-                                        and fa[2][2][0] == ("arg", 2) and fa[3][0] == "closure"
-                                        and ("arg", 3) in fa[3][2])
-                           else ("fail" if fa[4] else "pass"))
-        ok27 = refusal(ctx, p3, "SEP", "G27:round1-senders-in-round2", [("any(!contains)", anyf)], ok_sinks(p3))
-        if ok27:
-            clo = [fa[3] for (e, fa) in v.facts if fa[0] == "cond" and fa[1] == "any" and fa[3] and fa[3][0] == "closure"]
-            good = False
-            for c in clo:
-                cf = P.fns.get(c[1])
-                if cf:
-                    ct = TermCx(P, cf).local(0)
-                    good = (ct[0] == "un" and ct[1] == "Not" and is_call(ct[2], name="contains_key"))
-            ctx.check(good, "PROV", p3.key, "G27:closure-is-not-contains", "the any() closure must be !round2.contains_key(id)", p3.loc)
-        # G26 round-two senders ⊆ round-one senders: size equality or get(ell).ok_or in the loop
+        senders_coincide(ctx, p3, "G27:round1-senders-in-round2", "G26:round2-senders-in-round1")
         src = lambda s: s == ("arg", 3)
-        getok = lambda item: succ_fact(lambda t: t[0] == "ok_or" and call("get", arg(2), tfield(item, 0))(t[1]))
-        sz = refusal if False else None
-        vsize = cmp_fact("eq", length(arg(2)), length(arg(3)), False)
-        size_ok = not sep(p3, {e for (e, fa) in v.facts if vsize(fa) == "pass" and
-                               all(fail_is_error(p3, e2) for (e2, f2) in v.facts if e2[0] == e[0] and vsize(f2) == "fail")},
-                          ok_sinks(p3))
-        if size_ok and ok27:
-            ctx.ok("SEP", p3.key, "G26:round2-senders-in-round1", {"mechanism": "size equality + G27"})
-        else:
-            forall_loop(ctx, p3, "LOOPDOM", "G26:round2-senders-in-round1", src, [("get(ell).ok_or", getok)],
-                        require_fail_err=False)
         # G28 per-sender share check before accumulation
         chk = lambda item: succ_fact(share_check(item, arg(1), arg(2)))
         lp = forall_loop(ctx, p3, "LOOPDOM", "G28:share-verified-per-sender", src, [("SecretShare.verify()?", chk)],
